@@ -283,3 +283,273 @@ Proof.
     split; [reflexivity|]. split; [reflexivity|]. split; [|reflexivity].
     intros H. apply Hup in H. discriminate.
 Qed.
+
+(* ------------------------------------------------------------------ *)
+(* Append for 'e'/'E' with an explicit precision: round once, then lay out *)
+
+Lemma rounds_le m ng p v r k : 1 <= p -> Rounds m ng p v r -> (v <= scaled 1 k)%Q -> (r <= scaled 1 k)%Q.
+Proof.
+  intros Hp (M & e & (HM & Hlo & Hhi) & Heq & Hne) Hk. cbv zeta in *.
+  assert (Hpe : p - 1 + e <= k).
+  { destruct (Z.le_gt_cases (p - 1 + e) k); [assumption|exfalso].
+    assert (scaled 1 (k + 1) <= scaled M e)%Q.
+    { eapply Qle_trans; [apply (scaled1_le (k + 1) (p - 1 + e)); lia|].
+      apply (scaled_le_gen _ _ _ _ e); try lia. rewrite Z.sub_diag, Z.pow_0_r.
+      replace (p - 1 + e - e) with (p - 1) by lia. lia. }
+    assert (scaled 1 k < scaled 1 (k + 1))%Q.
+    { apply (scaled_lt_gen _ _ _ _ k); try lia. rewrite Z.sub_diag, Z.pow_0_r.
+      replace (k + 1 - k) with 1 by lia. lia. }
+    apply (Qlt_irrefl (scaled 1 k)). eapply Qlt_le_trans; [eassumption|].
+    eapply Qle_trans; [eassumption|]. eapply Qle_trans; eassumption. }
+  assert (Hlo_le : (scaled M e <= scaled 1 k)%Q) by (eapply Qle_trans; eassumption).
+  destruct (Z.eq_dec (p - 1 + e) k) as [Ek|Nk].
+  - (* lo = 10^k = v: the value is exact *)
+    assert (Hlo_ge : (scaled 1 k <= scaled M e)%Q).
+    { apply (scaled_le_gen _ _ _ _ e); try lia. rewrite Z.sub_diag, Z.pow_0_r.
+      replace (k - e) with (p - 1) by lia. lia. }
+    assert (Ev : (v == scaled M e)%Q).
+    { apply Qle_antisym; [|exact Hlo]. eapply Qle_trans; eassumption. }
+    rewrite (Heq Ev). exact Hlo_le.
+  - assert (Hhi_le : (scaled (M + 1) e <= scaled 1 k)%Q).
+    { apply (scaled_le_gen _ _ _ _ e); try lia. rewrite Z.sub_diag, Z.pow_0_r.
+      assert (10 ^ p <= 10 ^ (k - e)) by (apply Z.pow_le_mono_r; lia). lia. }
+    destruct (Qeq_dec v (scaled M e)) as [E|E]; [rewrite (Heq E); exact Hlo_le|].
+    specialize (Hne E). destruct (dir_of m ng).
+    + rewrite Hne. exact Hlo_le.
+    + rewrite Hne. exact Hhi_le.
+    + destruct Hne as (A & Bq & C).
+      destruct (Q_dec (v - scaled M e) (scaled (M + 1) e - v)) as [[H|H]|H].
+      * rewrite (A H). exact Hlo_le.
+      * rewrite (Bq H). exact Hhi_le.
+      * rewrite (C H). destruct (Z.even M); assumption.
+    + destruct Hne as (A & Bq).
+      destruct (Qlt_le_dec (v - scaled M e) (scaled (M + 1) e - v)) as [H|H].
+      * rewrite (A H). exact Hlo_le.
+      * rewrite (Bq H). exact Hhi_le.
+Qed.
+
+(* rounding a finite x whose exponent is below MaxExp stays finite *)
+Lemma round_stays_finite p md x x1 : WFfin x -> exp x < MaxExp -> 1 <= p ->
+  result_spec p md (neg x) (mag x) x1 -> dform x1 = Ffinite.
+Proof.
+  intros Hx He Hp [_ H]. pose proof (mag_bounds x Hx) as [Hlo Hhi].
+  destruct Hx as [Hne Hok Htop Hprec Hexp Htail].
+  destruct (Qlt_le_dec (mag x) (scaled 1 (MinExp - 1))) as [C|_].
+  { exfalso. assert (scaled 1 (MinExp - 1) <= scaled 1 (exp x - 1))%Q by (apply scaled1_le; lia).
+    apply (Qlt_irrefl (mag x)). eapply Qlt_le_trans; [exact C|]. eapply Qle_trans; eassumption. }
+  destruct H as (r & HR & H).
+  destruct (Qlt_le_dec r (scaled 1 MaxExp)) as [_|C]; [tauto|exfalso].
+  assert (Hr : (r <= scaled 1 (exp x))%Q) by (eapply rounds_le; [exact Hp|exact HR|apply Qlt_le_weak; exact Hhi]).
+  assert (scaled 1 (exp x) < scaled 1 MaxExp)%Q.
+  { apply (scaled_lt_gen _ _ _ _ (exp x)); try lia. rewrite Z.sub_diag, Z.pow_0_r.
+    assert (10 ^ 1 <= 10 ^ (MaxExp - exp x)) by (apply Z.pow_le_mono_r; lia). lia. }
+  apply (Qlt_irrefl r). eapply Qle_lt_trans; [exact Hr|]. eapply Qlt_le_trans; eassumption.
+Qed.
+
+Theorem append_e buf x fmt pr :
+  WF x -> dform x = Ffinite -> (fmt = 101 \/ fmt = 69) -> exp x < MaxExp ->
+  mdigits (mant x) < 4294967296 - 18 -> 0 <= pr -> pr + 1 <= MaxPrec ->
+  exists x1 d0 tl,
+    SigDigits x1 (d0 :: tl) /\ dform x1 = Ffinite /\ neg x1 = neg x /\
+    ((forall n, MinPrec x = Some n -> n <= pr + 1) /\ x1 = x \/
+     (exists n, MinPrec x = Some n /\ pr + 1 < n) /\ result_spec (pr + 1) (dmode x) (neg x) (mag x) x1) /\
+    Append buf x fmt pr =
+      Some ((buf ++ sign_bytes (neg x)) ++ [d0] ++
+            (if 0 <? pr then 46 :: firstn (Z.to_nat pr) tl ++ zeros (pr - Z.min pr (zlen tl)) else []) ++
+            [fmt; e_sign (exp x1 - 1)] ++ exp_digits (exp x1 - 1)).
+Proof.
+  intros Hwf Hf Hfmt He Hlen Hpr Hmax.
+  pose proof (WF_finite x Hwf Hf) as Hx.
+  destruct (sig_digits x Hx Hf) as (D & S).
+  pose proof (sd_minprec x D S) as Hmp. set (n := zlen D) in *.
+  assert (Hrnd : rnd_of x fmt pr = pr + 1).
+  { unfold rnd_of. destruct Hfmt as [-> | ->]; cbn [is_eE Z.eqb Pos.eqb orb]; lia. }
+  (* the rounded copy *)
+  assert (Hx1 : exists x1, round_for_fmt x fmt pr n = Some x1 /\ WF x1 /\ dform x1 = Ffinite /\ neg x1 = neg x /\
+            ((n <= pr + 1 /\ x1 = x) \/ (pr + 1 < n /\ result_spec (pr + 1) (dmode x) (neg x) (mag x) x1))).
+  { destruct (Z.le_gt_cases n (pr + 1)) as [Hle|Hgt].
+    - exists x. rewrite round_step_id by (rewrite Hrnd; exact Hle). auto 10.
+    - destruct (round_step x fmt pr n Hwf Hf Hlen ltac:(rewrite Hrnd; lia) ltac:(rewrite Hrnd; lia))
+        as (x1 & E & Hspec & Hp1 & Hm1 & Hwf1).
+      rewrite Hrnd in Hspec. exists x1. split; [exact E|]. split; [exact Hwf1|].
+      split; [eapply round_stays_finite; [exact Hx|exact He| |exact Hspec]; lia|].
+      split; [destruct Hspec as [Hn _]; exact Hn|]. right. auto. }
+  destruct Hx1 as (x1 & Er & Hwf1 & Hf1 & Hn1 & Hcase).
+  pose proof (WF_finite x1 Hwf1 Hf1) as Hxx1.
+  destruct (sig_digits x1 Hxx1 Hf1) as (D1 & S1).
+  destruct (fmtE_layout (buf ++ sign_bytes (neg x)) x1 D1 fmt pr S1 Hf1 Hpr) as (d0 & tl & ED1 & HE).
+  exists x1, d0, tl. rewrite <- ED1. split; [exact S1|]. split; [exact Hf1|]. split; [exact Hn1|]. split.
+  - destruct Hcase as [[Hle ->]|[Hgt Hspec]].
+    + left. split; [|reflexivity]. intros n0 E0. rewrite Hmp in E0. injection E0 as <-. exact Hle.
+    + right. split; [exists n; auto|exact Hspec].
+  - unfold Append. rewrite Hf, Hmp.
+    replace (pr <? 0) with false by (symmetry; apply Z.ltb_ge; lia).
+    destruct Hfmt as [-> | ->]; cbv beta iota zeta;
+      cbn [Z.eqb Pos.eqb is_eE is_gG orb andb];
+      rewrite Er, (sd_minprec x1 D1 S1); exact HE.
+Qed.
+
+(* ------------------------------------------------------------------ *)
+(* the 'f' layout for an arbitrary precision *)
+
+(* the first k elements of l followed by zeros *)
+Definition take_pad (k : Z) (l : bytes) : bytes := firstn (Z.to_nat k) l ++ zeros (k - Z.min k (zlen l)).
+
+(* the pr digits after the radix point: positions e, e+1, ... of the digit
+   string D (position 0 = first digit), zero outside D *)
+Definition frac_window (D : bytes) (e pr : Z) : bytes :=
+  let lead := Z.min pr (Z.max 0 (- e)) in
+  zeros lead ++ take_pad (pr - lead) (skipn (Z.to_nat (Z.max e 0)) D).
+
+Lemma take_pad_len k l : 0 <= k -> zlen (take_pad k l) = k.
+Proof.
+  intros Hk. unfold take_pad. pose proof (zlen_nonneg l). rewrite zlen_app, zeros_len by lia.
+  unfold zlen at 1. rewrite firstn_length. unfold zlen in *. lia.
+Qed.
+
+Lemma frac_window_len D e pr : 0 <= pr -> zlen (frac_window D e pr) = pr.
+Proof.
+  intros Hp. unfold frac_window. cbv zeta. rewrite zlen_app, zeros_len, take_pad_len by lia. lia.
+Qed.
+
+Lemma take_pad_zeros k (A : bytes) t : 0 <= k -> 0 <= t ->
+  firstn (Z.to_nat k) (A ++ zeros t) ++ zeros (k - zlen (firstn (Z.to_nat k) (A ++ zeros t))) = take_pad k A.
+Proof.
+  intros Hk Ht. unfold take_pad. pose proof (zlen_nonneg A) as HA.
+  destruct (Z.le_gt_cases k (zlen A)) as [H1|H1].
+  - rewrite firstn_app_le by (unfold zlen in *; lia).
+    assert (E : zlen (firstn (Z.to_nat k) A) = k) by (unfold zlen; rewrite firstn_length; unfold zlen in *; lia).
+    rewrite E. replace (k - k) with 0 by lia. replace (k - Z.min k (zlen A)) with 0 by lia. reflexivity.
+  - rewrite (firstn_all2 A) by (unfold zlen in *; lia).
+    replace (k - Z.min k (zlen A)) with (k - zlen A) by lia.
+    destruct (Z.le_gt_cases k (zlen A + t)) as [H2|H2].
+    + rewrite firstn_D_zeros by lia. rewrite zlen_app, zeros_len by lia.
+      replace (k - (zlen A + (k - zlen A))) with 0 by lia. change (zeros 0) with (@nil Z). now rewrite app_nil_r.
+    + rewrite firstn_all2 by (rewrite app_length; unfold zeros; rewrite repeat_length; unfold zlen in *; lia).
+      rewrite zlen_app, zeros_len by lia. rewrite <- app_assoc, zeros_app by lia. f_equal. f_equal. lia.
+Qed.
+
+Lemma skipn_zeros k t : 0 <= k -> 0 <= t -> skipn (Z.to_nat k) (zeros t) = zeros (Z.max 0 (t - k)).
+Proof.
+  intros Hk Ht. unfold zeros.
+  assert (G : forall n m, skipn n (repeat 48 m) = repeat 48 (m - n)).
+  { induction n as [|n IH]; intros m; [now rewrite Nat.sub_0_r|]. destruct m as [|m]; [reflexivity|]. cbn. apply IH. }
+  rewrite G. f_equal. lia.
+Qed.
+
+Lemma fmtF_layout buf x D pr : SigDigits x D -> dform x = Ffinite -> 0 <= pr ->
+  fmtF buf x pr = Some (buf ++ f_int D (exp x) ++ (if 0 <? pr then 46 :: frac_window D (exp x) pr else [])).
+Proof.
+  intros S Hf Hp. destruct (sd_toa x D S) as (t & Ht & Htoa & Htrim & _).
+  pose proof (sd_minprec x D S) as Hmp. destruct (sd_len x D S) as [Hn1 _].
+  pose proof (zlen_nonneg D) as HzD.
+  unfold fmtF. rewrite Htoa, Hmp. unfold blen. rewrite zlen_app, zeros_len by lia.
+  set (e := exp x) in *. set (n := zlen D) in *.
+  (* integer part *)
+  assert (Hint : (if 0 <? e then if n + t <? Z.min n e then None
+                                 else Some (firstn (Z.to_nat (Z.min n e)) (D ++ zeros t) ++ zeros (e - Z.min n e))
+                  else Some [48]) = Some (f_int D e)).
+  { unfold f_int. fold n. destruct (Z.ltb_spec 0 e) as [Hpos|Hnp].
+    - replace (n + t <? Z.min n e) with false by (symmetry; apply Z.ltb_ge; lia).
+      rewrite firstn_app_le by (unfold n, zlen in *; lia).
+      destruct (Z.leb_spec n e).
+      + replace (Z.min n e) with n by lia. replace (Z.to_nat n) with (length D) by (unfold n, zlen; lia).
+        now rewrite firstn_all.
+      + replace (Z.min n e) with e by lia. replace (e - e) with 0 by lia. change (zeros 0) with (@nil Z).
+        now rewrite app_nil_r.
+    - destruct (Z.leb_spec n e); [lia|reflexivity]. }
+  rewrite Hint. f_equal. f_equal. f_equal.
+  destruct (Z.ltb_spec 0 pr) as [Hpos|]; [|reflexivity].
+  f_equal. unfold frac_window. cbv zeta. f_equal.
+  set (lead := Z.min pr (Z.max 0 (- e))). set (e' := Z.max e 0).
+  (* the digits available after position e' *)
+  destruct (Z.le_gt_cases e' n) as [Hle|Hgt].
+  - rewrite skipn_app_le by (unfold n, zlen in *; lia).
+    apply take_pad_zeros; unfold lead; lia.
+  - rewrite skipn_app, (skipn_all2 D) by (unfold n, zlen in *; lia). cbn [app].
+    replace (Z.to_nat e' - length D)%nat with (Z.to_nat (e' - n)) by (unfold n, zlen; lia).
+    rewrite skipn_zeros by lia.
+    pose proof (take_pad_zeros (pr - lead) [] (Z.max 0 (t - (e' - n))) ltac:(unfold lead; lia) ltac:(lia)) as HT.
+    cbn [app] in HT. exact HT.
+Qed.
+
+Lemma fmtF_zero buf x pr : dform x = Fzero -> 0 <= pr ->
+  fmtF buf x pr = Some (buf ++ [48] ++ (if 0 <? pr then 46 :: zeros pr else [])).
+Proof.
+  intros Hf Hp. unfold fmtF, toa. rewrite Hf. cbv beta iota zeta.
+  change (0 <? 0) with false. cbv iota. f_equal. f_equal. f_equal.
+  destruct (Z.ltb_spec 0 pr); [|reflexivity].
+  replace (Z.min pr (Z.max 0 (- 0))) with 0 by lia.
+  cbn [Z.max Z.to_nat skipn]. rewrite firstn_nil. unfold blen. change (zlen (@nil Z)) with 0.
+  change (zeros 0) with (@nil Z). cbn [app]. f_equal. f_equal. lia.
+Qed.
+
+(* Append for 'f' with an explicit precision pr >= 0, end to end.  x1 is
+   - x itself when no digit of x lies beyond the position 10^-pr,
+   - x rounded once to exp x + pr digits under x's mode when the position is
+     inside the digits of x,
+   - one unit 10^-pr or a zero (by up_spec) when it is at or above the leading
+     digit;
+   the output is the sign of x followed by the 'f' layout of x1: integer part
+   (f_int), and after the point exactly pr digits (frac_window). *)
+Theorem append_f buf x pr D :
+  WF x -> dform x = Ffinite -> SigDigits x D -> exp x < MaxExp ->
+  mdigits (mant x) < 4294967296 - 18 -> 0 <= pr <= 2147483648 -> exp x + pr <= MaxPrec ->
+  exists x1,
+    neg x1 = neg x /\
+    ((zlen D <= exp x + pr /\ x1 = x) \/
+     (1 <= exp x + pr < zlen D /\ dform x1 = Ffinite /\ result_spec (exp x + pr) (dmode x) (neg x) (mag x) x1) \/
+     (exp x + pr <= 0 /\
+      (up_spec (dmode x) (neg x) (mag x) pr -> dform x1 = Ffinite /\ (mag x1 == scaled 1 (- pr))%Q) /\
+      (~ up_spec (dmode x) (neg x) (mag x) pr -> dform x1 = Fzero))) /\
+    (dform x1 = Ffinite ->
+       exists D1, SigDigits x1 D1 /\
+         Append buf x 102 pr = Some ((buf ++ sign_bytes (neg x)) ++ f_int D1 (exp x1) ++
+                                     (if 0 <? pr then 46 :: frac_window D1 (exp x1) pr else []))) /\
+    (dform x1 = Fzero ->
+       Append buf x 102 pr = Some ((buf ++ sign_bytes (neg x)) ++ [48] ++ (if 0 <? pr then 46 :: zeros pr else []))).
+Proof.
+  intros Hwf Hf S He Hlen Hpr Hmax.
+  pose proof (WF_finite x Hwf Hf) as Hx.
+  pose proof (sd_minprec x D S) as Hmp. destruct (sd_len x D S) as [Hn1 _]. set (n := zlen D) in *.
+  assert (Hrnd : rnd_of x 102 pr = Z.max (exp x + pr) 0).
+  { unfold rnd_of, mexp. rewrite Hf. reflexivity. }
+  (* Append = fmtF of the rounded copy *)
+  assert (HA : forall x1 k, round_for_fmt x 102 pr n = Some x1 -> MinPrec x1 = Some k ->
+            Append buf x 102 pr = fmtF (buf ++ sign_bytes (neg x)) x1 pr).
+  { intros x1 k Er Hk. unfold Append. rewrite Hf, Hmp.
+    replace (pr <? 0) with false by (symmetry; apply Z.ltb_ge; lia).
+    cbv beta iota zeta. cbn [Z.eqb Pos.eqb is_eE is_gG orb andb]. rewrite Er, Hk. reflexivity. }
+  assert (Hfin : forall x1, round_for_fmt x 102 pr n = Some x1 -> WF x1 -> dform x1 = Ffinite ->
+            exists D1, SigDigits x1 D1 /\
+              Append buf x 102 pr = Some ((buf ++ sign_bytes (neg x)) ++ f_int D1 (exp x1) ++
+                                          (if 0 <? pr then 46 :: frac_window D1 (exp x1) pr else []))).
+  { intros x1 Er Hw1 Hf1. destruct (sig_digits x1 (WF_finite x1 Hw1 Hf1) Hf1) as (D1 & S1).
+    exists D1. split; [exact S1|]. rewrite (HA x1 _ Er (sd_minprec x1 D1 S1)).
+    apply fmtF_layout; [exact S1|exact Hf1|lia]. }
+  destruct (Z.le_gt_cases n (exp x + pr)) as [Hc|Hc].
+  - (* nothing to round *)
+    assert (Er : round_for_fmt x 102 pr n = Some x) by (apply round_step_id; rewrite Hrnd; lia).
+    exists x. split; [reflexivity|]. split; [left; auto|]. split.
+    + intros _. apply Hfin; assumption.
+    + intros Hz. congruence.
+  - destruct (Z.le_gt_cases (exp x + pr) 0) as [Hz|Hpos].
+    + (* at or above the leading digit *)
+      destruct (round_step_zero x pr n D Hwf Hf S eq_refl Hpr Hz) as (x1 & Er & Hn & Hm & Hup & Hdn).
+      exists x1. split; [exact Hn|]. split.
+      * right. right. split; [exact Hz|]. split; [intros H; destruct (Hup H) as (A & Bq & _); auto|exact Hdn].
+      * split.
+        -- intros Hf1. destruct (classic_up (dmode x) (neg x) (mag x) pr) as [U|U].
+           ++ destruct (Hup U) as (_ & _ & Hw1). apply Hfin; assumption.
+           ++ rewrite (Hdn U) in Hf1. discriminate.
+        -- intros Hz1. rewrite (HA x1 0 Er); [apply fmtF_zero; [exact Hz1|lia]|].
+           unfold MinPrec. rewrite Hz1. reflexivity.
+    + (* inside the digits *)
+      destruct (round_step x 102 pr n Hwf Hf Hlen ltac:(rewrite Hrnd; lia) ltac:(rewrite Hrnd; lia))
+        as (x1 & Er & Hspec & Hp1 & Hm1 & Hw1).
+      rewrite Hrnd in Hspec. replace (Z.max (exp x + pr) 0) with (exp x + pr) in Hspec by lia.
+      assert (Hf1 : dform x1 = Ffinite) by (eapply round_stays_finite; [exact Hx|exact He| |exact Hspec]; lia).
+      exists x1. split; [destruct Hspec as [Hn _]; exact Hn|]. split; [right; left; auto|]. split.
+      * intros _. apply Hfin; assumption.
+      * intros Hz1. congruence.
+Qed.
